@@ -2017,24 +2017,55 @@ func (w *Writer) tryConstEvalUnary(u ir.ExprUnary) (string, bool) {
 
 // involvesExprConstant checks if an expression references an ExprConstant (named constant).
 func (w *Writer) involvesExprConstant(handle ir.ExpressionHandle) bool {
+	return w.involvesExprConstantMemo(handle, map[ir.ExpressionHandle]bool{})
+}
+
+// involvesExprConstantMemo visits every sub-expression once: operands are
+// shared in an expression DAG (let a1 = a0 + a0; let a2 = a1 + a1; ...).
+func (w *Writer) involvesExprConstantMemo(handle ir.ExpressionHandle, memo map[ir.ExpressionHandle]bool) bool {
 	if int(handle) >= len(w.currentFunction.Expressions) {
 		return false
 	}
+	if r, ok := memo[handle]; ok {
+		return r
+	}
+	memo[handle] = false
 	expr := &w.currentFunction.Expressions[handle]
+	r := false
 	switch k := expr.Kind.(type) {
 	case ir.ExprConstant:
-		return true
+		r = true
 	case ir.ExprBinary:
-		return w.involvesExprConstant(k.Left) || w.involvesExprConstant(k.Right)
+		r = w.involvesExprConstantMemo(k.Left, memo) || w.involvesExprConstantMemo(k.Right, memo)
 	case ir.ExprUnary:
-		return w.involvesExprConstant(k.Expr)
+		r = w.involvesExprConstantMemo(k.Expr, memo)
 	}
-	return false
+	memo[handle] = r
+	return r
 }
 
 // exprConstValue tries to evaluate a function expression to a float64 constant.
 // Handles Literal, ExprConstant (via global expression init), and recursively Binary/Unary.
 func (w *Writer) exprConstValue(handle ir.ExpressionHandle) (float64, bool) {
+	return w.exprConstValueMemo(handle, map[ir.ExpressionHandle]constEvalResult{})
+}
+
+type constEvalResult struct {
+	val float64
+	ok  bool
+}
+
+// exprConstValueMemo evaluates every sub-expression once (see involvesExprConstantMemo).
+func (w *Writer) exprConstValueMemo(handle ir.ExpressionHandle, memo map[ir.ExpressionHandle]constEvalResult) (float64, bool) {
+	if r, ok := memo[handle]; ok {
+		return r.val, r.ok
+	}
+	val, ok := w.exprConstValueUncached(handle, memo)
+	memo[handle] = constEvalResult{val, ok}
+	return val, ok
+}
+
+func (w *Writer) exprConstValueUncached(handle ir.ExpressionHandle, memo map[ir.ExpressionHandle]constEvalResult) (float64, bool) {
 	if int(handle) >= len(w.currentFunction.Expressions) {
 		return 0, false
 	}
@@ -2053,13 +2084,13 @@ func (w *Writer) exprConstValue(handle ir.ExpressionHandle) (float64, bool) {
 			}
 		}
 	case ir.ExprBinary:
-		left, leftOk := w.exprConstValue(k.Left)
-		right, rightOk := w.exprConstValue(k.Right)
+		left, leftOk := w.exprConstValueMemo(k.Left, memo)
+		right, rightOk := w.exprConstValueMemo(k.Right, memo)
 		if leftOk && rightOk {
 			return ir.EvalBinaryFloat(k.Op, left, right), true
 		}
 	case ir.ExprUnary:
-		val, ok := w.exprConstValue(k.Expr)
+		val, ok := w.exprConstValueMemo(k.Expr, memo)
 		if ok {
 			return ir.EvalUnaryFloat(k.Op, val), true
 		}
